@@ -67,7 +67,7 @@ func c01Leaves(full bool) map[string][]pt.Expr {
 		"bool":   {pt.B(true), pt.B(false), pt.V("bv"), pt.C("b", pt.B(true)), pt.C("b", pt.B(false))},
 		"[]num":  {pt.A(pt.N(1), pt.N(2)), pt.A(), pt.V("av"), pt.C("a", pt.A(pt.N(5)))},
 		"{}num":  {pt.M("a", pt.N(1)), pt.M("b", pt.N(2), "a", pt.N(1)), pt.V("mv"), pt.M()},
-		"any":    {pt.V("xa"), pt.V("xb"), pt.V("xn"), pt.V("xs"), pt.V("xm"), pt.V("xq")},
+		"any":    {pt.V("xa"), pt.V("xb"), pt.V("xn"), pt.V("xs"), pt.V("xm"), pt.V("xq"), pt.V("xt"), pt.V("xr")},
 		"[]any":  {pt.A(pt.N(1), pt.A(pt.N(1), pt.N(2))), pt.V("ya"), pt.A(pt.N(1), pt.S("a"))},
 	}
 	if !full {
